@@ -485,7 +485,7 @@ func runC01(c *core.Ctx) {
 		r.Fill(mic[:])
 		major := lorawan.Major(0)
 		if r.Chance(1, 8) {
-			major = lorawan.Major(r.Intn(4))
+			major = lorawan.Major(mj(byte(r.Intn(4))))
 		}
 		switch i % 5 {
 		case 0:
@@ -516,7 +516,7 @@ func runC01(c *core.Ctx) {
 				if raw, err := base64.StdEncoding.DecodeString(string(txt)); err == nil && len(raw) >= 5 && raw[0]>>5 == 7 && raw[0]&0x1c == 0 {
 					var m4 [4]byte
 					copy(m4[:], raw[len(raw)-4:])
-					simpleRoundTrip(c, "proprietary-lookalike-text", lorawan.PHYPayload{MHDR: lorawan.MHDR{MType: lorawan.Proprietary, Major: lorawan.Major(raw[0] & 3)}, MIC: lorawan.MIC(m4),
+					simpleRoundTrip(c, "proprietary-lookalike-text", lorawan.PHYPayload{MHDR: lorawan.MHDR{MType: lorawan.Proprietary, Major: lorawan.Major(mj(raw[0] & 3))}, MIC: lorawan.MIC(m4),
 						MACPayload: &lorawan.DataPayload{Bytes: append([]byte{}, raw[1:len(raw)-4]...)}})
 				}
 			}
